@@ -19,7 +19,7 @@ LEVEL_NOTE = ('Partial in one respect: fields/segments with exactly one element 
               'size-1 array as a broadcastable scalar; open known finding KF-C07-one-pixel-segment). Trusted: Lean kernel, py2lean subset '
               'semantics, NumPy slicing/broadcast/exp semantics as modelled, generator coverage of the correspondence.')
 TECHNIQUE = 'Lean 4 proof (omega/induction/ring) over translator-regenerated kernels + hand model with differential correspondence'
-GEN = ['Extent', 'FieldIdx', 'Helper', 'PlanePx', 'PlaneHandover']
+GEN = ['Extent', 'FieldIdx', 'Helper', 'PlanePx', 'PlaneHandover', 'PlanePhase']
 OPS = ['C07', 'C03']
 RULE = ('cases: chains of 1..4 planes on a fresh wavefront, the class drawn per plane among Plane, Pupil, Image, Tilt, Plane(ptype=pupil) within the '
         'admitted plane types, scalar/array amplitude, OPD and None/scalar/2-D/3-D mask in every combination (segments 1..5, overlapping boxes, '
@@ -32,15 +32,17 @@ RULE = ('cases: chains of 1..4 planes on a fresh wavefront, the class drawn per 
 TRUSTED = ['NumPy slicing/broadcasting of amplitude[s]*mask[s]*exp(2 pi i opd[s]/wavelength) and util.boundary (modelled by hand in Model/Plane.lean)',
            'pixel scales are compared for equality only; the model carries them as integers',
            'np.exp(1j*t) = cos t + i sin t (Float model) ; |z**2| = re^2 + im^2 up to rounding']
-UNPROVEN = ['fields and segment phasors with exactly one element are outside the theorems (known finding KF-C07-one-pixel-segment)',
+UNPROVEN = ['the wiring of Wavefront.field/intensity/insert (which view goes through reduce, how the weight enters) is hand-modelled and pinned, not regenerated',
+            'fields and segment phasors with exactly one element are outside the theorems (known finding KF-C07-one-pixel-segment)',
             'chains of planes AND propagations: each step is covered by a theorem (plane: plane_multiply_*; views after any step: intensity_eq_normSq_field, wavefront_insert_weight; '
-            'chain of planes: C03 chain_distrib; propagation: C02/C03), the interleaved chain as a whole by correspondence (c03.chain) and oracle only',
+            'chain of planes: C03 chain_distrib / chain_exp; propagation: C02/C03), the interleaved chain as a whole by correspondence (c03.chain) and oracle only',
             'views on shape-() wavefronts and zero-dimensional / single (1,1) fields: oracle only (the array model has no 0-d data; C06 reduceZ covers the merge)',
             'multiply overrides other than Plane/Pupil/Image/Tilt: DispersiveTilt/Grism (tilt bookkeeping, C04), LensletArray are not exercised; DispersiveAberration.multiply raises NotImplementedError; '
             'Rotate/Flip.multiply raise AttributeError (open known finding of C08)',
             'the plane-type admission test of Plane.multiply (C08) and tilt bookkeeping (C04) are not part of this model',
             'the constructor\'s mask normalisation (mask != 0, mask=None -> amplitude) is applied by the harness before the model sees the plane (Plane.__init__ is pinned)']
-ASSUMPTIONS = ['every segment bounding box and every intermediate field that is multiplied by a further plane has more than one element (a propagation window of a single output sample is generated: the views of one-element fields are defined since the repo fix of _merge_shape)',
+ASSUMPTIONS = ['focal lengths handed through a plane are truthy (non-zero, not None): Wavefront.__init__ replaces a falsy focal length by inf, so a Pupil with focal_length None/0 followed by a further non-pupil plane ends with inf; the model/theorem hand-over is stated for the value as it is (generated and checked by the oracle, the model comparison of the focal length is skipped for such chains)',
+               'every segment bounding box and every intermediate field that is multiplied by a further plane has more than one element (a propagation window of a single output sample is generated: the views of one-element fields are defined since the repo fix of _merge_shape)',
                'attribute arrays have the shape of the mask (otherwise NumPy raises or broadcasts; malformed input)']
 
 WL_GI = 2.0 ** -20      # k*WL_GI/4 is exact in float64
@@ -226,6 +228,9 @@ def gen_chain(rng, mode, kmax=6, nmax=3):
             if r < 12: pl['px'] = list(base)
             elif r == 12: pl['px'] = [base[0], base[1] + 1]
             elif r == 13: pl['px'] = [base[0] + 1, base[1]]
+        if rng.integers(0, 6) == 0:          # documented-but-rare focal lengths of a Pupil: None, 0, inf
+            for pl in planes:
+                if pl['kind'] == 'pupil' and rng.integers(0, 2): pl['fl'] = [None, 0.0, math.inf][int(rng.integers(0, 3))]
         c = {'kind': 'chain', 'mode': mode, 'wavelength': WL_GI if mode == 'gi' else float(np.round(rng.uniform(0.5, 2.0), 3)),
              'wpx': wpx, 'planes': planes}
         if rng.integers(0, 2):
@@ -285,6 +290,14 @@ def gen_px_extreme(rng):
     else: b = None
     if rng.integers(0, 2): a, b = b, a
     return {'kind': 'px', 'a': a, 'b': b, 'extreme': True}
+
+def _flnum(x):
+    """focal length as a float for the wire/compare: None -> NaN"""
+    return float('nan') if x is None else float(x)
+
+def _same_fl(a, b):
+    a, b = _flnum(a), _flnum(b)
+    return (a != a and b != b) or a == b
 
 def gen_chain_extreme(rng):
     """float chains in physical units: wavelength 1e-9 .. 1e-5 m, OPD maps of nanometre size (|opd| <= 1e-8 m, non-zero) mixed
@@ -365,7 +378,13 @@ def gen_pchain(rng):
             # alpha2 = px2*du2/(wl*fl*1): choose du2 scale accordingly (wavelength and focal length are fixed by now)
             k = alpha2 * wl * fl / (px2[0] * du2[0])
             du2 = [du2[0] * k, du2[1] * k]
-            els.append({'kind': 'propagate', 'dx': px2, 'du': du2, 'os': 1, 'shape': [int(rng.integers(2, 5)), int(rng.integers(2, 5))], 'prop_shape': None})
+            sh2 = [int(rng.integers(2, 5)), int(rng.integers(2, 5))]
+            els.append({'kind': 'propagate', 'dx': px2, 'du': du2, 'os': 1, 'shape': sh2, 'prop_shape': None})
+            if rng.integers(0, 2):
+                # a pupil-type plane reached after TWO propagations (image -> pupil)
+                pl = _plane(rng, mode, (sh2[0], sh2[1]), 'plane_pupil' if rng.integers(0, 2) else 'pupil', ['2d', '3d', 'none', 'scalar'][int(rng.integers(0, 4))])
+                pl['px'] = None
+                if not has_one_element_field([_full_plane((sh2[0], sh2[1])), pl]): els.append(pl)
         c = {'kind': 'pchain', 'mode': mode, 'wavelength': wl, 'elements': els}
         tsh = _shape(rng, 7)
         c['insert'] = {'out': _target(rng, mode, tsh), 'weight': float(np.round(rng.normal(0, 2), 2))}
@@ -453,6 +472,7 @@ def tags(c):
     if k == 'pchain':
         ks = [e['kind'] for e in c['elements']]
         t += [f"pchain:propagations={ks.count('propagate')}", f"pchain:image-planes={ks.count('image')}"]
+        if ks.count('propagate') == 2 and ks[-1] != 'propagate': t.append('pchain:plane-after-two-propagations')
         if 'tilt' in ks: t.append('pchain:tilt-after-propagation')
         return t
     if k == 'chain':
@@ -461,6 +481,7 @@ def tags(c):
             t.append(f"amp:{_akind(p['amp'])}/opd:{_akind(p['opd'])}/mask:{_mkind(p['mask'])[:2]}")
             t.append(p['kind'])
             if _boxes_overlap(p): t.append('segments:overlapping-boxes')
+            if p['kind'] == 'pupil' and (p['fl'] is None or p['fl'] in (0.0, math.inf)): t.append('pupil:focal-None/0/inf')
             if p['mask'] is None and 'scalar' in p['amp'] and p['amp']['scalar'] == 1 and 'scalar' in p['opd'] and p['opd']['scalar'] == 0: t.append('default-plane')
         defined = [x for x in [c['wpx']] + [p['px'] for p in c['planes']] if x is not None]
         t.append('px:none' if not defined else 'px:conflict' if any(x != defined[0] for x in defined) else 'px:consistent')
@@ -515,7 +536,7 @@ def _pxl(p):
 
 def wf_out(w, c):
     mode = c['mode']
-    o = {'wavelength': float(w.wavelength), 'focal': float(w.focal_length), 'px': _pxl(w.pixelscale),
+    o = {'wavelength': float(w.wavelength), 'focal': None if w.focal_length is None else float(w.focal_length), 'px': _pxl(w.pixelscale),
          'shape': [int(s) for s in w.shape] if len(w.shape) else None, 'data': [fld_out(f, mode) for f in w.data]}
     if len(w.shape) == 2:
         o['field'] = arr_out(w.field, mode)
@@ -616,7 +637,7 @@ def plane_req(pl, mode, rank=None):
     if isinstance(L, int): mask = {'scalar': L}
     else: mask = {'shape': [int(s) for s in L[0].shape], 'layers': [[int(x) for x in lay.ravel()] for lay in L]}
     r = {'kind': pl['kind'] if pl['kind'] in ('pupil', 'image') else 'plane', 'amp': attr_req(pl['amp'], mode), 'opd': attr_req(pl['opd'], mode), 'mask': mask, 'px': pl['px'] if rank is None else px_code(pl['px'], rank)}
-    if pl['kind'] == 'pupil': r['fl'] = vlib.fbits(pl['fl'])
+    if pl['kind'] == 'pupil': r['fl'] = vlib.fbits(_flnum(pl['fl']))
     return r
 
 def arr_req(a, mode):
@@ -745,7 +766,8 @@ def compare(c, io, mo):
         return None if m['px'] == want else f"_mul_pixelscale: impl {io['px']} model {m['px']}"
     mode = c['mode']
     if vlib.bitsf(m['wavelength']) != io['wavelength']: return f"wavelength: impl {io['wavelength']} model {vlib.bitsf(m['wavelength'])}"
-    if vlib.bitsf(m['focal']) != io['focal']: return f"focal length: impl {io['focal']} model {vlib.bitsf(m['focal'])}"
+    falsy = any(p['kind'] == 'pupil' and not p['fl'] for p in c.get('planes', []))          # None / 0: see ASSUMPTIONS
+    if not falsy and not _same_fl(vlib.bitsf(m['focal']), io['focal']): return f"focal length: impl {io['focal']} model {vlib.bitsf(m['focal'])}"
     if (None if io['px'] is None else [rank.get(float(x)) for x in io['px']]) != m['px']: return f"pixelscale: impl {io['px']} model {m['px']}"
     if io['shape'] != m['shape']: return f"shape: impl {io['shape']} model {m['shape']}"
     box = _field_box(io['data'] + [dict(f, shape=f['shape']) for f in m['data']])
@@ -877,8 +899,10 @@ def oracle(c, io):
         if io['wavelength'] != c['wavelength']: return f"wavelength changed: {io['wavelength']}"
         fl = math.inf
         for p in c['planes']:
-            if p['kind'] == 'pupil': fl = p['fl']
-        if io['focal'] != fl: return f"focal length {io['focal']} != {fl}"
+            # a Pupil hands over its focal length as it is; every Plane.multiply builds the new wavefront through
+            # Wavefront.__init__, which replaces a falsy focal length (None, 0) by inf ("plane wave")
+            fl = p['fl'] if p['kind'] == 'pupil' else (fl if fl else math.inf)
+        if not _same_fl(io['focal'], fl): return f"focal length {io['focal']} != {fl}"
         box = _field_box(io['data'])
         for p in c['planes']:
             for a in (p['amp'], p['opd'], p['mask'] or {}):
